@@ -167,6 +167,15 @@ def gen_chronicle(repo):
         raise Untranslatable(f'{CHRON}:find: day step {sorted(day_names)} / skip step {sorted(skip_names)} not unique')
     steps = {'oneday': _timedelta_us(tds[day_names.pop()], 'day step'),
              'one': _timedelta_us(tds[skip_names.pop()], 'skip step')}
+    # does `find` convert aware bounds to UTC before reading their calendar date?
+    norm = {}
+    for name in ('after', 'before'):
+        norm[name] = any(
+            isinstance(n, ast.Assign) and getattr(n.targets[0], 'id', None) == name
+            and isinstance(n.value, ast.Call) and isinstance(n.value.func, ast.Attribute)
+            and n.value.func.attr == 'astimezone' and getattr(n.value.func.value, 'id', None) == name
+            and len(n.value.args) == 1 and ast.unparse(n.value.args[0]) == 'UTC'
+            for n in ast.walk(fnd))
     # --- API handlers
     api = _tree(repo, API)
     calls = {}
@@ -209,6 +218,9 @@ def gen_chronicle(repo):
         '/-- `one`, `oneday` of `find` in micro-seconds -/\n'
         f'def oneUs : Int := {steps["one"]}\n'
         f'def onedayUs : Int := {steps["oneday"]}\n'
+        '/-- `after = after.astimezone(UTC)` / `before = before.astimezone(UTC)` present in `find` -/\n'
+        f'def normalisesAfter : Bool := {b(norm["after"])}\n'
+        f'def normalisesBefore : Bool := {b(norm["before"])}\n'
         '/-- which of its own arguments an API handler hands to `chronicle.find` -/\n'
         'structure ApiCall where\n'
         '  after : Bool\n  before : Bool\n  limit : Bool\n  succeeded : Bool\n'
